@@ -63,12 +63,12 @@ def plan(tier):
     # ctffind4_read and wedge_sg are 1.6 x what the driver's own DIRECT calls reach (measured with VERIF_BYPASS_INTERNAL=1), so the
     # floors hold whatever cryoCAT's internal call structure is.
     if tier == "quick":
-        return dict(n_cases=25 * 17, shards=2, classes=CLASSES, timeout_s=600, env={"PYTHONUTF8": "1"},
+        return dict(n_cases=25 * 17, shards=2, classes=CLASSES, timeout_s=1800, env={"PYTHONUTF8": "1"},
                     min_evals={"mdoc_write": 180, "mdoc_read": 1040, "mdoc_roundtrip": 160, "mdoc_history": 130, "sort_by_tilt": 80,
                                "remove_images": 100, "kept_images": 530, "one_value_per_line_read": 900, "tlt_load": 400,
                                "total_dose_load": 200, "gctf_read": 130, "ctffind4_read": 130, "defocus_load": 50, "wedge_sg": 440, "wedge_sg_batch": 60,
                                "wedge_em_batch": 35, "wedge_sg_to_em": 35, "index_array_unchanged": 25, "loader_truth": 350, "defocus_truth": 90, "wedge_truth": 120})
-    return dict(n_cases=25 * 240, shards=12, classes=CLASSES, timeout_s=3000, env={"PYTHONUTF8": "1"},
+    return dict(n_cases=25 * 240, shards=12, classes=CLASSES, timeout_s=6000, env={"PYTHONUTF8": "1"},
                 min_evals={"mdoc_write": 2700, "mdoc_read": 14200, "mdoc_roundtrip": 2400, "mdoc_history": 2000, "sort_by_tilt": 1200,
                            "remove_images": 1500, "kept_images": 6800, "one_value_per_line_read": 11400, "tlt_load": 6000,
                            "total_dose_load": 3000, "gctf_read": 2500, "ctffind4_read": 2280, "defocus_load": 750, "wedge_sg": 6400, "wedge_sg_batch": 900,
